@@ -88,7 +88,9 @@ def worker(task):
                     'func': fq, 'receiver': None, 'func_kind': 'eval', 'lineno': None,
                     'goal_str': w['why'], 'model_str': detail,
                     'entry': {}, 'locals': {}, 'allowed_exceptions': [], 'static_violation': not ok,
-                    'eval_witness': not ok})
+                    # evaluated on / run against the imported real code: the value read is the failing input;
+                    # facts decided on the source text alone (eval-ast) name a site, not an input
+                    'eval_witness': (not ok) and backend in ('eval', 'bounded')})
             out['info'] = {'paths_normal': 1, 'paths_raise': 0, 'vacuous': False, 'gen_s': 0.0, 'solve_s': 0.0,
                            'alias_sites': [], 'func_kind': 'eval'}
         except Exception as e:
